@@ -102,7 +102,17 @@ func C09Worlds(c *Ctx, sz sizes) ([]*World, error) {
 			}
 			s.Convs = append(s.Convs, LConv{Dir: d, File: "conv.go", Kind: kind, Name: fmt.Sprintf("D%c%d", 'a'+ci, si), Version: 1, Defect: st})
 		}
-		ws = append(ws, s.World("defects-"+st))
+		dw := s.World("defects-" + st)
+		if st == "multiname" {
+			// several source files per package: the loader parses them concurrently, so anything
+			// that depends on the order in which they enter the file set shows between runs
+			for _, d := range []string{"svc/conv", "a", "api/conv"} {
+				for k := 0; k < 5; k++ {
+					dw.Files[fmt.Sprintf("%s/extra%d.go", d, k)] = fmt.Sprintf("package %s\n\n%stype Extra%d struct{ A, B int }\n", s.PkgNames[d], strings.Repeat("// filler line\n", 3+17*k), k)
+				}
+			}
+		}
+		ws = append(ws, dw)
 	}
 	// a directory sits where one of several output files belongs (prior tree state): the run
 	// fails at that file; what it reports and which other files it wrote must not follow map order
@@ -330,12 +340,15 @@ func (c *Ctx) finish(prop, level string, found []Found, judge Judge, keyFn func(
 		}
 		maxShrink--
 		min.V.Key = prop + ":" + keyFn(c, min)
+		if min.Native {
+			min.V.Key = prop + ":" + min.V.Class + ":env=native-nondeterminism(outside the seams)"
+		}
 		if seenKey[min.V.Key] {
 			continue
 		}
 		seenKey[min.V.Key] = true
 		rp := &Replay{Property: prop, Class: min.V.Class, Msg: min.V.Msg, Key: min.V.Key, Engine: "gensim", Seed: c.Seed,
-			SiteNames: c.SiteNames(), History: min.H, Minimised: true, ShrinkLog: log}
+			SiteNames: c.SiteNames(), History: min.H, Minimised: true, ShrinkLog: log, Native: min.Native}
 		p, err := c.WriteReplay(rp)
 		if err != nil {
 			return nil, &InfraError{Msg: err.Error()}
